@@ -9,7 +9,7 @@ META = dict(
          "the statement. (b) Controller x bids 1-2 controls on target y at tick j: all front/mid/back placements and declaration orders, y "
          "active/inactive, y period 0 or 2 ticks, second bid in the same action list / later context of the same tick / next tick; the exact "
          "sequence of (control received, status yielded) by y's generator, logged by a proxy around tasker.runner, equals the reference "
-         "(last bid before the run wins; same tick iff y runs later in the tick and is due). (c) every fiat sequence up to length 3 on a slave "
+         "(last bid before the run wins; same tick iff y runs later in the tick and is due). (b') a framer bidding on itself (me / own name / all) from its first frame, inside the run that processes START, or later. (c) every fiat sequence up to length 3 on a slave "
          "with passing / failing first-frame guard: each fiat's return value and the slave's state equal the reference; slaves receive controls from fiats only.",
     note="Fiat return values are observed by wrapping the Fiat actors' action methods harness-side. Reference interpreter mc/flo/ref.py.",
 )
@@ -96,6 +96,7 @@ def machine_work(arg):
 def family():
     from mc.flo import families as F
     yield from F.fam_fiats(3)
+    yield from F.fam_selfbids()
     yield from F.fam_bids(js=(0, 2) if core.TIER == "quick" else (0, 1, 2, 3))
 
 
